@@ -258,6 +258,18 @@ class Classes:
                 "M", [("f", typ, self.bp.message_field(fno))], bases=(self.bp.Message,), eq=False, repr=False)
         return self.cache[k]
 
+    def get_pos(self, fno, typ, pos):
+        """the same single field in a presence-tracking position: proto3 `optional`, or a member of a oneof"""
+        import typing
+        k = (fno, typ, pos)
+        if k not in self.cache:
+            fld = self.bp.message_field(fno, optional=True) if pos == "optional" else self.bp.message_field(fno, group="g")
+            self.cache[k] = dataclasses.make_dataclass(
+                "M", [("f", typing.Optional[typ] if pos == "optional" else typ, fld), ("z", int, self.bp.int32_field(fno + 1, group="g") if pos == "oneof"
+                                                                                 else self.bp.int32_field(fno + 1))],
+                bases=(self.bp.Message,), eq=False, repr=False)
+        return self.cache[k]
+
     def reference(self, seed):
         if self.ref is None:
             from google.protobuf import descriptor_pb2, descriptor_pool, message_factory, timestamp_pb2, duration_pb2
@@ -314,6 +326,17 @@ def oracle_datetime(C, ref, wall, off, fno):
             bad.append(("ts_roundtrip", f"parse(bytes(m)).f = {back!r} is not the instant of {dt!r}"))
         if bytes(M(f=back)) != b:
             bad.append(("ts_roundtrip", "re-encoding the decoded datetime changes the bytes"))
+        # the same value in a presence-tracking position (proto3 optional / member of a oneof) decodes back to the identical value too -
+        # the epoch included, which encodes to an empty payload (seeded C15-11)
+        for pos in ("optional", "oneof"):
+            P = C.get_pos(fno, datetime, pos)
+            try:
+                pb = P().parse(bytes(P(f=dt)))
+                got = object.__getattribute__(pb, "f") if pos == "optional" else (bp.which_one_of(pb, "g")[1] if bp.which_one_of(pb, "g")[0] == "f" else None)
+            except Exception as e:  # noqa
+                got = f"{type(e).__name__}: {e}"
+            if not isinstance(got, datetime) or inst(got) != t:
+                bad.append(("ts_roundtrip", f"{pos} Timestamp field: parse(bytes(m)).f = {got!r} is not the instant of {dt!r}"))
         other = mk_dt(t, 0)
         if bytes(M(f=other)) != b:
             bad.append(("ts_tz", f"the same instant at offset 0 encodes differently: {bytes(M(f=other)).hex()} vs {b.hex()}"))
@@ -369,6 +392,15 @@ def oracle_duration(C, ref, us, fno):
     back = M().parse(b).f
     if back != td:
         bad.append(("dur_roundtrip:" + fcls, f"parse(bytes(m)).f = {back!r}, stored {td!r}"))
+    for pos in ("optional", "oneof"):      # presence-tracking positions, the zero span included (seeded C15-11)
+        P = C.get_pos(fno, timedelta, pos)
+        try:
+            pb = P().parse(bytes(P(f=td)))
+            got = object.__getattribute__(pb, "f") if pos == "optional" else (bp.which_one_of(pb, "g")[1] if bp.which_one_of(pb, "g")[0] == "f" else None)
+        except Exception as e:  # noqa
+            got = f"{type(e).__name__}: {e}"
+        if got != td:
+            bad.append(("dur_roundtrip:" + fcls, f"{pos} Duration field: parse(bytes(m)).f = {got!r}, stored {td!r}"))
     if abs(us) <= DUR_MAX:
         x = ref[("D", fno)]()
         x.f.seconds, x.f.nanos = exp
